@@ -187,7 +187,7 @@ Qed.
 Fixpoint gen_appends (s : Gen.SszEncoder) (items : list (bool * (bytes -> bytes))) : outcome Gen.SszEncoder :=
   match items with
   | [] => Ok s
-  | (f, app) :: r => do s' <- Gen.encoder_append s f app; gen_appends s' r
+  | (f, app) :: r => do s' <- Gen.encoder_append s f (fun b => Ok (app b)); gen_appends s' r
   end.
 
 (** [SszEncoder::container(buf, nf)], the appends in order, [finalize()]: the resulting buffer. *)
@@ -208,8 +208,8 @@ Proof.
   cbn [map item_of fst snd gen_appends fold_left].
   unfold var_total in H. cbn [map sumN fst snd] in H. fold (var_total r) in H.
   assert (H0 : Gen.SszEncoder_offset s + len (Gen.SszEncoder_variable_bytes s) <= usize_max) by lia.
-  pose proof (gen_encoder_append_eq s f (fun b : bytes => b ++ p) H0) as E.
-  destruct (Gen.encoder_append s f (fun b : bytes => b ++ p)) as [s'| |]; cbn [omap bind] in *; try discriminate.
+  pose proof (gen_encoder_append_eq s f (fun b : bytes => b ++ p) H0) as E. cbv beta in E.
+  cbv beta. destruct (Gen.encoder_append s f _) as [s'| |]; cbn [omap bind] in *; try discriminate.
   injection E as E. cbv beta. cbn [fst snd]. rewrite <- E. apply IH.
   change (Gen.SszEncoder_offset s') with (e_offset (enc_abs s')).
   change (Gen.SszEncoder_variable_bytes s') with (e_var (enc_abs s')).
